@@ -695,6 +695,56 @@ func c05Sim(src, sub, scope string) string {
 	return rerr.Error()
 }
 
+// c05SimLifecycle drives the lifecycle entry point of one scope (ProcessRecv … ProcessLog) for a
+// return(action) cell and reports only whether the simulator's state dispatch knows the action the
+// subroutine returned ("returned unexpected state <action> in <SCOPE>"). Everything that happens
+// downstream (other subroutines, the origin fetch against the harness's loopback server) is ignored.
+func c05SimLifecycle(src, scope, action string) string {
+	src = strings.Replace(src, `backend b { .host = "127.0.0.1"; .port = "8080"; }`+"\n", backendDecl(), 1)
+	ip, _, err := newTestInterp(src)
+	if err != nil {
+		return "HARNESS init: " + err.Error()
+	}
+	var rerr error
+	func() {
+		defer func() {
+			if r := recover(); r != nil {
+				rerr = nil // driving one lifecycle step in isolation is not a supported entry point: crashes are not judged here
+			}
+		}()
+		switch scope {
+		case "recv":
+			rerr = ip.ProcessRecv()
+		case "hash":
+			rerr = ip.ProcessHash()
+		case "hit":
+			rerr = ip.ProcessHit()
+		case "miss":
+			rerr = ip.ProcessMiss()
+		case "pass":
+			rerr = ip.ProcessPass()
+		case "fetch":
+			rerr = ip.ProcessFetch()
+		case "error":
+			rerr = ip.ProcessError()
+		case "deliver":
+			rerr = ip.ProcessDeliver()
+		case "log":
+			rerr = ip.ProcessLog()
+		}
+	}()
+	if rerr == nil {
+		return ""
+	}
+	want := fmt.Sprintf("returned unexpected state %s in %s", action, strings.ToUpper(scope))
+	for _, l := range strings.Split(rerr.Error(), "\n") {
+		if strings.Contains(l, want) {
+			return l
+		}
+	}
+	return ""
+}
+
 func checkC05(raw json.RawMessage) iso.Result {
 	var c C05Case
 	if err := json.Unmarshal(raw, &c); err != nil {
@@ -761,6 +811,16 @@ func checkC05(raw json.RawMessage) iso.Result {
 			}
 			col.Label("S:" + class)
 			col.FailKey(c05SimKey(c, s, class, first), "L => S: the linter accepts, the simulator fails in scope %s with a %s error: %s\n%s", s, class, first, cell())
+		}
+		if c.Kind == "return" && len(c.Scopes) == 1 {
+			if msg := c05SimLifecycle(src, c.Scopes[0], c.Name); strings.HasPrefix(msg, "HARNESS") {
+				col.Failf("harness: %s\n%s", msg, cell())
+			} else if msg != "" {
+				col.Label("S:lifecycle-state")
+				col.FailKey(c05SimKey(c, c.Scopes[0], "lifecycle-state", msg), "L => S: the linter accepts the action, the simulator's lifecycle does not know it in scope %s: %s\n%s", c.Scopes[0], msg, cell())
+			} else {
+				col.Label("S:lifecycle-dispatched")
+			}
 		}
 	}
 	return col.Done()
@@ -883,6 +943,9 @@ func c05SimKey(c C05Case, scope, class, msg string) string {
 	case class == "panic" && c.Kind == "func" && (c.Name == "crypto.encrypt_hex" || c.Name == "crypto.encrypt_base64") && strings.Contains(msg, "input not full blocks"):
 		// encryptCBC computes the PKCS#7 pad size with `&` instead of `%`
 		return "sim.crash:crypto-encrypt-cbc-pkcs7-padding"
+	case class == "lifecycle-state" && c.Kind == "return" && c.Name == "deliver_stale" && scope == "error":
+		// ProcessError dispatches DELIVER and RESTART only
+		return "sim.lifecycle-state-unknown:deliver_stale-in-error"
 	case class == "out-of-scope" && c.Kind == "func" && strings.HasPrefix(c.Name, "setcookie.") && strings.Contains(msg, "resp is not accessible in"):
 		// the linter accepts the ID `resp` wherever the function is allowed
 		return "lint.setcookie-container-scope-unchecked"
